@@ -14,6 +14,7 @@ from .rules import tables as RT
 from .rules import density as RDn
 from .rules import omega_tab as RO
 from .rules import calculate as RCa
+from .rules import prism as RP2
 
 PROPS = {}
 
@@ -162,7 +163,8 @@ prop('C05',
      'computes it); floating-point error; np.polyfit numerics (trusted).')
 
 prop('C06',
-     [('R00.dyn', RG.rule_no_dynamic), ('R06.f', RCa.rule_frame_and_typestate)],
+     [('R00.dyn', RG.rule_no_dynamic), ('R06.f', RCa.rule_frame_and_typestate), ('R01.f', RP2.rule_post_solve),
+      ('R01.a', RP2.rule_cost), ('R07.t', RD.rule_roundtrip), ('R07.m', RD.rule_matrixarray_transforms)],
      'Static analysis: every calculate function is abstractly interpreted for every flag valuation and every one of the '
      '8 combinations of spaces (Real/Fourier) the three stored arrays can be in, on a heap with array identity and '
      'views: (frame) the only persistent writes are the sanctioned in-place space transforms and brand-new cache '
@@ -172,6 +174,41 @@ prop('C06',
      'call history gives the results of a fresh object.',
      'rounding introduced by repeated forward/backward transforms (C07 bounds it to rounding error); the numerical '
      'effect of re-solving.')
+
+
+prop('C16',
+     [('R00.dyn', RG.rule_no_dynamic), ('R16.x', RP2.rule_system_check), ('R16.d', RP2.rule_check_dominates),
+      ('R16.c', RP2.rule_copy_and_frame), ('R16.w', RP2.rule_wiring)],
+     'Static analysis of System/PRISM construction: System.__init__ is interpreted to enumerate the tables it creates and '
+     'System.check must visit each of them (and refuse a missing domain with ValueError) without writing; in '
+     'createPRISM/solve an unconditional self.check() must dominate PRISM(self); PRISM.__init__ is abstractly interpreted '
+     'on a symbolic, fully specified System with per-pair element objects: every effect on anything reachable from the '
+     'caller\'s System is a violation, the PRISM object must share no mutable cell with it (deep copy), and the wiring '
+     'facts are compared as terms: closure[a,b].sigma = diameter[a,b], closure[a,b].potential = potential[a,b](r)/kT with '
+     'sigma defaulted only when None, omega = table evaluated on k, exported in Fourier space, times site density, for '
+     'every unordered pair.',
+     'equality of the *solved numbers* of a swept and a fresh System (follows from these frame conditions only up to '
+     'solver determinism).')
+
+
+prop('C01',
+     [('R00.dyn', RG.rule_no_dynamic), ('R01.a', RP2.rule_cost), ('R01.f', RP2.rule_post_solve),
+      ('R16.w', RP2.rule_wiring), ('R16.c', RP2.rule_copy_and_frame),
+      ('R09.d', RC.rule_definition), ('R03.a', RC.rule_core), ('R09.p', RC.rule_purity),
+      ('R15.f', RDn.rule_density), ('R07.t', RD.rule_roundtrip), ('R07.m', RD.rule_matrixarray_transforms),
+      ('R13.5', _r13_arith), ('R13.6', RM.rule_dot_invert), ('R13.9', RM.rule_items)],
+     'Static analysis: PRISM.__init__ and PRISM.cost are abstractly interpreted end to end on a symbolic System (per-pair '
+     'closure/potential/omega objects, pair loops with symbolic labels, MatrixArray operators interpreted from source). '
+     'Decided: (a) the solver vector is copied, never written through; (b) every unordered pair gets its own closure '
+     'evaluated on r with its own block of x/r and stored under its own key; (c) rho_pair*totalCorr satisfies the matrix '
+     'PRISM equation H = Omega C (Omega + H) as an identity of non-commutative word series in {Omega, C} (Omega = '
+     'site-density scaled omega from __init__, C = Fourier transform of the closure output); (e) the returned residual is '
+     'r*(toR(totalCorr-directCorr) - GammaIn) of this evaluation; (f) solve re-evaluates cost at the returned root so the '
+     'stored arrays belong to result.x, and leaves totalCorr in real space; plus the shared lower-layer rules (each '
+     'closure equals its published relation, density operators, transform pair, MatrixArray semantics).',
+     'that a solve converges, the size of the residual, floating-point error; the bound "discrepancy <= residual x closure '
+     'slope" is a numerical statement about scipy.optimize.root output.',
+     ['the root finder returns result.x as its solution (scipy, trusted)'])
 
 
 def run(pid, tier, repo, seed=0, replay=None, write=True):
